@@ -68,6 +68,7 @@ def check(ctx):
         _c01.r01_3(c_, _cc.build(c_, "R01.3"))
 
     ctx.run_shared(_cigar_presence)
+    ctx.run(lambda c_: _sh.tag_pop_reinsert(c_, "R16.5"), _independent=True)
     ctx.run_shared(_sh.gaf_reader)
     ctx.run_shared(_sh.cli_layer, "gaftools.cli.view")
     ctx.run_shared(_sh.cli_layer, "gaftools.cli.realign")
